@@ -28,10 +28,10 @@ RULE = (
     "deletes the deliberate deadlock marker. Half of the sequences end with a crash: one up-to-date handle's process is "
     "killed at a generated lock/file operation inside a write, the operator removes the stale lock, and every other "
     "handle then writes: whenever the data file on disk is newer than the handle's copy the write must be rejected and "
-    "the files unchanged. processes: 2-4 try-submit-jobs / show-status processes from different "
-    "hosts started together in the middle of a generated submission, interleaved at lock- and file-operation "
+    "the files unchanged. processes: 2-4 try-submit-jobs / show-status / cancel-jobs processes, from the login host or up "
+    "to three other hosts (several may share a host), started together in the middle of a generated submission, interleaved at lock- and file-operation "
     "granularity; oracle over the snapshots after every cluster-lock release: the role never passes from one host "
-    "to another without being cleared in between, two processes are never inside a submitter round at the same "
+    "to another without being cleared in between and is cleared only by the process that took it, two processes are never inside a submitter round at the same "
     "time (submitter.lock intervals do not overlap), no job is handed to sbatch twice. non-trivial = handles: >= 1 "
     "refused promotion and >= 1 rejected stale write; processes: >= 1 refused promotion while another process was "
     "inside its round; distinct by hash of the case"
@@ -67,7 +67,10 @@ def process_cases(draw):
         "scn": scn,
         "schedule": draw(gen.schedules(200)),
         "burst_at": draw(st.integers(10, 250)),
-        "burst": draw(st.lists(st.sampled_from(["try", "try", "show"]), min_size=2, max_size=4)),
+        "burst": draw(st.lists(st.sampled_from(["try", "try", "show", "cancel"]), min_size=2, max_size=4)),
+        # the host each command of the burst is issued from: 0 = the login host (where submit-jobs ran), 1-3 = other hosts;
+        # several commands may come from the same host (JADE identifies the submitter by host name)
+        "burst_hosts": draw(st.lists(st.integers(0, 3), min_size=4, max_size=4)),
         "lock_mode": draw(st.sampled_from(["classic", "selfheal"])),
     }
 
@@ -385,9 +388,14 @@ def run_processes(case, res):
         def fire(ww):
             if sim.is_complete():
                 return
+            hosts = case.get("burst_hosts")
             for i, k in enumerate(case["burst"]):
-                args = ["try-submit-jobs", sim.out] if k == "try" else ["show-status", "-o", sim.out, "-n"]
-                sim.user_cmd(args, host=f"userhost{i}", name=f"burst{i}")
+                args = {"try": ["try-submit-jobs", sim.out], "show": ["show-status", "-o", sim.out, "-n"],
+                        "cancel": ["cancel-jobs", sim.out]}[k]
+                host = f"userhost{i}" if hosts is None else ("login1" if hosts[i] == 0 else f"userhost{hosts[i]}")
+                sim.user_cmd(args, host=host, name=f"burst{i}")
+            if hosts is not None and len({hosts[i] for i in range(len(case["burst"]))}) < len(case["burst"]):
+                res["classes"].append("burst_with_commands_from_one_host")
             st_["fired"] = len(ww.log)
 
         w.user_events.append(("burst", pred, fire, True))
@@ -397,6 +405,7 @@ def run_processes(case, res):
             res["inconclusive"] = "step-budget"
         # role never passes from host to host without being cleared
         prev = None
+        holder = None
         for s in w.snaps:
             try:
                 cc = json.loads(s["files"]["cluster_config.json"] or "null")
@@ -404,6 +413,14 @@ def run_processes(case, res):
                 cc = None
             if cc is None:
                 continue
+            # the role is released only by the process that took it (two processes of one host look alike in the file)
+            if prev is not None and not prev["submitter"] and cc["submitter"]:
+                holder = s["by"]
+            elif prev is not None and prev["submitter"] and not cc["submitter"]:
+                if holder is not None and s["by"] != holder:
+                    v.append(C.viol("C10:role-released-by-a-process-that-does-not-hold-it",
+                                    f"the role taken by {holder} (host {prev['submitter']}) was cleared by {s['by']}"))
+                holder = None
             if prev is not None and prev["submitter"] and cc["submitter"] and prev["submitter"] != cc["submitter"]:
                 v.append(C.viol("C10:role-taken-over-while-held", f"submitter changed from {prev['submitter']} to {cc['submitter']} without "
                                 f"being cleared (lock release by {s['by']})"))
